@@ -10,11 +10,13 @@ Case dict: {'mesh','V','C','F','E','lists','sort','first','seed','clause','query
   sort      value of config.sort_neighborhoods
   first     True: the query kind `clause` is the very first connectivity request on a fresh mesh;
             False: all queries are issued in the order random.Random(seed).shuffle gives
+  clear     (optional) after that pass connectivity.clear() is called and everything is asked again in another order
   clause    query kind (check site), query: the individual request, sig: kind of discrepancy
 
 "known" handling: every known case is replayed first; the ones that still fail are returned in known_hit.  A failure of
 the family is skipped when its descriptor (case without 'error') equals a known one, or when it has the same
-(clause, sig) as a known case that was re-confirmed in this run (the same defect showing on another mesh).
+(clause, sig) as a known case that was re-confirmed in this run (the same defect showing on another mesh), or when it is
+an exception with the same sig (exception type @ raising library function) as a re-confirmed known case.
 """
 import itertools, random
 import numpy as np
@@ -86,6 +88,7 @@ def base_meshes(seed, thorough):
     out.append(('star4', T + [(0.25, 0.2, 0.3)], [(1, 2, 3, 4), (0, 2, 3, 4), (0, 1, 3, 4), (0, 1, 2, 4)], False))
     O = [(1.1, 0, 0), (-1, 0.1, 0), (0, 1.2, 0), (0, -1, 0.1), (0.1, 0, 1), (0, 0, -1.3), (0.05, 0.02, 0.01)]
     out.append(('star8', O, [(6, a, b, c) for a in (0, 1) for b in (2, 3) for c in (4, 5)], False))
+    out.append(('tet2_unused_vertex', T + [(1., 1., 1.), (5., 5., 5.)], [(0, 1, 2, 3), (1, 2, 3, 4)], False))
     out.append(('two_components', T + [(p[0] + 3, p[1], p[2]) for p in T], [(0, 1, 2, 3), (4, 5, 6, 7)], False))
     out.append(('kuhn211',) + kuhn(2, 1, 1) + (False,))
     out.append(('kuhn222',) + kuhn(2, 2, 2) + (False,))
@@ -122,10 +125,13 @@ def variants(name, P, C, small, rnd, thorough):
     """yield (variant name, P, C, F, E, lists)"""
     yield 'pos', P, C, None, None, False
     yield 'neg', P, [(c[0], c[1], c[3], c[2]) for c in C], None, None, False
+    if name in ('tet2', 'fan_closed4', 'kuhn111', 'star8'):
+        for sc in (1e-4, 1e5):
+            yield 'scaled%g' % sc, [tuple(sc * x - 3 * sc for x in p) for p in P], C, None, None, False
     if small:
         for k, p in enumerate(ALL24[1:], 1):
             yield 'order%d' % k, P, [tuple(C[0][i] for i in p)] + C[1:], None, None, False
-    for r in range(3 if thorough else 1):
+    for r in range(6 if thorough else 1):
         perm = list(range(len(P))); rnd.shuffle(perm)
         P2, C2 = renumber(P, C, perm)
         rnd.shuffle(C2)
@@ -507,11 +513,26 @@ def queries(m, sp, sort_flag, explicit_faces):
 
 # ------------------------------------------------------------------------------------------------ running
 
+def raise_sig(e):
+    """exception type + innermost named library function on the traceback: identifies the defect whatever query met it"""
+    import traceback
+    where = '?'
+    for fr in traceback.extract_tb(e.__traceback__):
+        if '/mouette/' in fr.filename and not fr.name.startswith('<'):
+            where = fr.name
+            if fr.name.startswith(('_compute_', '_sort_', '_extract_')):
+                ABANDON[0] = True       # escaped from a lazy table construction: the mesh object is left half-initialised
+    return 'raise:%s@%s' % (type(e).__name__, where)
+
+
+ABANDON = [False]
+
+
 def call(fn, label):
     try:
         r = fn()
     except Exception as e:
-        return ('raise:' + type(e).__name__, '%s raised %s: %s' % (label, type(e).__name__, e))
+        return (raise_sig(e), '%s raised %s: %s' % (label, type(e).__name__, e))
     return r
 
 
@@ -521,6 +542,8 @@ def run_case(d):
     config.sort_neighborhoods = bool(d['sort'])
     fails = []
     base = {k: d[k] for k in ('mesh', 'V', 'C', 'F', 'E', 'lists', 'sort', 'first', 'seed')}
+    if d.get('clear'):
+        base['clear'] = True
 
     def record(clause, label, r):
         f = dict(base)
@@ -531,16 +554,32 @@ def run_case(d):
         try:
             m = build(d['V'], d['C'], d['F'], d['E'], d['lists'])
         except Exception as e:
-            record('construction', 'VolumeMesh(raw)', ('raise:' + type(e).__name__, 'VolumeMesh(raw) raised %s: %s' % (type(e).__name__, e)))
+            record('construction', 'VolumeMesh(raw)', (raise_sig(e), 'VolumeMesh(raw) raised %s: %s' % (type(e).__name__, e)))
             return fails
         qs = queries(m, sp, bool(d['sort']), bool(d['F']))
         if not d['first']:
             order = list(range(len(qs)))
             random.Random(d['seed']).shuffle(order)
+            ABANDON[0] = False
             for k in order:
                 r = call(qs[k][2], qs[k][1])
                 if r:
                     record(qs[k][0], qs[k][1], r)
+                    if ABANDON[0]:
+                        return fails        # answers of a half-initialised object are not judged
+            if d.get('clear'):
+                # history: reset the lazily built tables, then ask everything again in another order
+                r = call(lambda: m.connectivity.clear(), 'connectivity.clear()')
+                if r:
+                    record('clear', 'connectivity.clear()', r)
+                qs = queries(m, sp, bool(d['sort']), bool(d['F']))
+                random.Random(d['seed'] + 1).shuffle(order)
+                for k in order:
+                    r = call(qs[k][2], qs[k][1])
+                    if r:
+                        record(qs[k][0], qs[k][1] + ' after connectivity.clear()', (r[0], r[1] + ' (after connectivity.clear())'))
+                        if ABANDON[0]:
+                            return fails
         else:
             clauses = []
             for cl, _, _ in qs:
@@ -577,6 +616,8 @@ def family(seed, thorough):
                  'F': [list(f) for f in F] if F else None, 'E': [list(e) for e in E] if E else None, 'lists': lists, 'seed': seed}
             for sort_flag in (True, False):
                 yield dict(d, sort=sort_flag, first=False)
+                if vname in ('renum_mixed0', 'explicit0') and sort_flag:
+                    yield dict(d, sort=sort_flag, first=False, clear=True)
                 if len(C2) <= 48 and (vname in ('pos', 'renum_mixed0', 'explicit0') or (thorough and not vname.startswith('order'))) and (sort_flag or vname == 'pos'):
                     yield dict(d, sort=sort_flag, first=True)
 
@@ -592,7 +633,7 @@ def main():
         respond(failing=same[0] if same else None, cases=1)
     known = req.get('known') or []
     known_keys = {strip(k) for k in known}
-    known_hit, covered = [], set()
+    known_hit, covered, covered_raise = [], set(), set()
     for k in known:
         try:
             fails = run_case(k)
@@ -601,13 +642,14 @@ def main():
         if any(strip(f) == strip(k) for f in fails):
             known_hit.append(k)
             covered.add((k.get('clause'), k.get('sig')))
+            covered_raise.add(k.get('sig'))
     n = 0
     skipped = 0
     bud = Budget(270 if thorough else 50)
     for d in family(seed, thorough):
         n += 1
         for f in run_case(d):
-            if strip(f) in known_keys or (f['clause'], f['sig']) in covered:
+            if strip(f) in known_keys or (f['clause'], f['sig']) in covered or (f['sig'].startswith('raise:') and f['sig'] in covered_raise):
                 skipped += 1
                 continue
             respond(failing=f, cases=n, known_hit=known_hit, note='%d failures attributed to known cases' % skipped)
